@@ -145,7 +145,8 @@ Finish(c, res, cls, nrs, nves) ==
   /\ rs' = [nrs EXCEPT !.calls = Append(rs.calls, c)]
   /\ ves' = nves
   /\ last' = [op |-> "call", call |-> c, res |-> res, cls |-> cls, history |-> rs.calls,
-              nsteps |-> Len(nrs.prog), decl |-> nrs.decl, locked |-> nrs.locked]
+              nsteps |-> Len(nrs.prog), decl |-> nrs.decl, locked |-> nrs.locked,
+              cur |-> nrs.cur, stageNames |-> {nrs.stages[i].name : i \in DOMAIN nrs.stages}]
 
 Refuse(c, res, cls) == Finish(c, res, cls, rs, ves)
 
@@ -259,6 +260,7 @@ Bake(c) ==
                 /\ ves' = ves
                 /\ last' = [op |-> "call", call |-> c, res |-> "ok", cls |-> "baked", history |-> rs.calls,
                             nsteps |-> NSteps, decl |-> rs.decl, locked |-> TRUE,
+                            cur |-> "all", stageNames |-> {closed.stages[i].name : i \in DOMAIN closed.stages},
                             results |-> [i \in DOMAIN rs.decl |-> ves[rs.decl[i]]],
                             stages |-> closed.stages, prog |-> rs.prog, clss |-> rs.clss,
                             \* the ledger and the answers of the tracking queries (omitted by the lifecycle instance)
